@@ -26,6 +26,16 @@ STEP_OPS = {
     "JMP_TRUE": dict(cov=ALL3, defs={"VERIF_TARGET": 13}, bound="jump target pinned to the next instruction"),
     "PRINT": dict(cov=0), "ASSERT": dict(cov=0),
     "STR_LEN": dict(cov=ALL3), "STR_EQ": dict(cov=ALL3), "CAST_BOOL": dict(cov=ALL3),
+    # second batch (same scheme)
+    "NOP": dict(cov=0), "PUSH_I64": dict(cov=0), "PUSH_VOID": dict(cov=0),
+    "TYPE_CHECK": dict(cov=ALL3), "AND": dict(cov=ALL3), "OR": dict(cov=ALL3),
+    "LT": dict(cov=ALL3), "LE": dict(cov=ALL3), "GT": dict(cov=ALL3), "GE": dict(cov=ALL3),
+    "JMP_FALSE": dict(cov=ALL3, defs={"VERIF_TARGET": 13}, bound="jump target pinned to the next instruction"),
+    "MATCH_TAG": dict(extra=UN, cov=0, defs={"VERIF_TARGET": 15}, bound="jump target pinned to the next instruction"),
+    "GC_RELEASE": dict(cov=ALL3), "GC_RETAIN": dict(cov=CRC, ge_only=True),
+    "STR_CONTAINS": dict(cov=ALL3), "STR_CHAR_AT": dict(cov=ALL3),
+    "CAST_INT": dict(cov=ALL3, checks=["--no-signed-overflow-check"]), "CAST_FLOAT": dict(cov=ALL3, checks=["--no-signed-overflow-check"]),
+    "OPAQUE_VALID": dict(cov=0), "NEG": dict(cov=0, checks=["--no-signed-overflow-check"]),
 }
 
 
@@ -52,8 +62,8 @@ def step_obligations():
             o["defines"]["VERIF_RC_GE_ONLY"] = 1
         else:
             o["must_have"].append(r"C14\.step\.noleak")
-        if cfg.get("no_slice"):
-            o["no_slice"] = True
+        if cfg.get("checks"):
+            o["flags"] = o["flags"] + cfg["checks"]
         if cfg.get("bound"):
             o["strength"] = "B(%s)" % cfg["bound"]
         obs.append(o)
